@@ -103,6 +103,13 @@ func (p *polling) onPollRequest(ctx *types.HttpContext) {
 	}
 
 	ctx.Once("close", onClose)
+	if ctx.Context().Err() != nil {
+		// the client was gone before the listener was in place: the close
+		// event has been (or is being) emitted and is not repeated
+		ctx.RemoveListener("close", onClose)
+		onClose()
+		return
+	}
 
 	p.SetWritable(true)
 	p.Emit("ready")
